@@ -1,6 +1,127 @@
-//! Seeded command generators for what the specification does not enumerate (long / deep / garbage).
-//! Filled in per property; every generator is a pure function of (kind, seed, count).
-pub fn drive(kind: &str, _seed: u64, _count: usize, _out: &str) {
-    eprintln!("unknown drive kind {kind}");
-    std::process::exit(2);
+//! Seeded command generators for what the specification does not enumerate: long and deeply
+//! nested inputs (up to 512 characters, nesting up to 64), random token soups, long digit runs.
+//! Every generator is a pure function of (kind, seed, count).
+use crate::vocab::{enum_format, FORMATS};
+use rand::rngs::StdRng;
+use rand::seq::SliceRandom;
+use rand::{Rng, SeedableRng};
+use serde_json::json;
+use std::io::Write;
+
+fn tokens(fmt: &str) -> Vec<String> {
+    let f = enum_format(fmt);
+    let mut t: Vec<&str> = vec![
+        f.compound.brackets.0, f.compound.brackets.1, f.compound.separator,
+        f.compound.brackets_set_extension.0, f.compound.brackets_set_extension.1,
+        f.compound.brackets_set_intension.0, f.compound.brackets_set_intension.1,
+        f.statement.brackets.0, f.statement.brackets.1,
+        f.compound.connecter_conjunction, f.compound.connecter_disjunction, f.compound.connecter_negation,
+        f.compound.connecter_conjunction_sequential, f.compound.connecter_conjunction_parallel,
+        f.compound.connecter_intersection_extension, f.compound.connecter_intersection_intension,
+        f.compound.connecter_difference_extension, f.compound.connecter_difference_intension,
+        f.compound.connecter_product, f.compound.connecter_image_extension, f.compound.connecter_image_intension,
+        f.sentence.punctuation_judgement, f.sentence.punctuation_goal, f.sentence.punctuation_question, f.sentence.punctuation_quest,
+        f.sentence.stamp_brackets.0, f.sentence.stamp_brackets.1, f.sentence.stamp_fixed, f.sentence.stamp_past, f.sentence.stamp_present, f.sentence.stamp_future,
+        f.sentence.truth_brackets.0, f.sentence.truth_brackets.1, f.sentence.truth_separator,
+        f.task.budget_brackets.0, f.task.budget_brackets.1, f.task.budget_separator,
+        f.atom.prefix_placeholder, f.atom.prefix_variable_independent, f.atom.prefix_variable_dependent, f.atom.prefix_variable_query,
+        f.atom.prefix_interval, f.atom.prefix_operator,
+        " ", "  ", "a", "b1", "go-to", "词", "0", "1", "0.5", "1.5", "-1", "+7", ".", "..", "-", "--", "é", "\t", "\n", "\u{3000}", "😀", "99999999999999999999999999",
+    ];
+    t.extend(f.copulas());
+    t.into_iter().filter(|s| !s.is_empty()).map(str::to_owned).collect()
+}
+
+fn clip(s: String, max: usize) -> String {
+    s.chars().take(max).collect()
+}
+
+fn garbage(fmt: &str, rng: &mut StdRng) -> String {
+    let f = enum_format(fmt);
+    let toks = tokens(fmt);
+    let openers = [
+        (f.compound.brackets_set_extension.0, f.compound.brackets_set_extension.1),
+        (f.compound.brackets_set_intension.0, f.compound.brackets_set_intension.1),
+        (f.statement.brackets.0, f.statement.brackets.1),
+        (f.compound.brackets.0, f.compound.brackets.1),
+    ];
+    match rng.gen_range(0..7) {
+        // token soup of random length
+        0 | 1 => {
+            let n = rng.gen_range(1..120);
+            clip((0..n).map(|_| toks.choose(rng).unwrap().as_str()).collect::<String>(), 512)
+        }
+        // deep nesting, closed or not, with a payload in the middle
+        2 | 3 => {
+            let depth = rng.gen_range(1..=64);
+            let mut s = String::new();
+            let mut closers = vec![];
+            for _ in 0..depth {
+                let (l, r) = openers.choose(rng).unwrap();
+                s.push_str(l);
+                if *l == f.compound.brackets.0 {
+                    s.push_str(f.compound.connecter_product);
+                    s.push_str(f.compound.separator);
+                } else if *l == f.statement.brackets.0 {
+                    s.push('a');
+                    s.push_str(f.statement.copula_inheritance);
+                }
+                closers.push(*r);
+            }
+            s.push_str(toks.choose(rng).unwrap());
+            let close = rng.gen_range(0..=depth);
+            for r in closers.iter().rev().take(close) {
+                s.push_str(r);
+            }
+            if rng.gen_bool(0.5) {
+                s.push_str(f.sentence.punctuation_judgement);
+            }
+            clip(s, 512)
+        }
+        // long number lists and digit runs inside truth / budget / stamp / interval
+        4 => {
+            let digits: String = (0..rng.gen_range(1..400)).map(|_| char::from(b'0' + rng.gen_range(0..10u8))).collect();
+            let (l, r) = *[f.sentence.truth_brackets, f.task.budget_brackets, (f.sentence.stamp_fixed, f.sentence.stamp_brackets.1), (f.atom.prefix_interval, "")]
+                .choose(rng)
+                .unwrap();
+            let tail = if rng.gen_bool(0.5) { r } else { "" };
+            clip(format!("a{}{}{}{}{}", f.sentence.punctuation_judgement, f.sentence.stamp_brackets.0, l, digits, tail), 512)
+        }
+        // a long flat compound
+        5 => {
+            let n = rng.gen_range(2..100);
+            let mut s = format!("{}{}", f.compound.brackets.0, f.compound.connecter_conjunction);
+            for i in 0..n {
+                s.push_str(f.compound.separator);
+                s.push_str(&format!("w{i}"));
+            }
+            if rng.gen_bool(0.7) {
+                s.push_str(f.compound.brackets.1);
+            }
+            clip(s, 512)
+        }
+        // arbitrary unicode scalar values
+        _ => {
+            let n = rng.gen_range(1..64);
+            (0..n).map(|_| char::from_u32(rng.gen_range(0x20..0x2ffff)).unwrap_or('x')).collect()
+        }
+    }
+}
+
+pub fn drive(kind: &str, seed: u64, count: usize, out: &str) {
+    let mut w = std::io::BufWriter::new(std::fs::File::create(out).expect("create"));
+    let mut rng = StdRng::seed_from_u64(seed);
+    match kind {
+        "garbage" => {
+            for i in 0..count {
+                let fmt = FORMATS[i % 3];
+                let s = garbage(fmt, &mut rng);
+                writeln!(w, "{}", json!({"op":"parse_any","fmt":fmt,"s":s,"drive":true})).unwrap();
+            }
+        }
+        other => {
+            eprintln!("unknown drive kind {other}");
+            std::process::exit(2);
+        }
+    }
 }
